@@ -190,6 +190,7 @@ def run(ctx) -> None:
     ctx.rules_run += ["Y1", "Y2", "Y3", "Y4", "Y5", "Y6", "P3(pydantic)"]
     template.rule_Y1(ctx, full=ctx.tier == "thorough")
     template.rule_Y2(ctx)
+    template.rule_Y2iii(ctx)
     rule_Y3(ctx)
     rule_Y4(ctx)
     rule_Y5(ctx)
